@@ -433,4 +433,16 @@ def standard_build(chk, need_model=True):
         chk.notes['axioms_reported'] = b.assumptions
     if need_model and not b.modelrun_ok:
         chk.obligation_broken('modelrun: the executable model does not build: ' + b.modelrun_log[-400:])
+    if chk.tier == 'thorough' and b.coq_ok and os.environ.get('VERIF_SKIP_COQCHK') != '1':
+        # independent re-check of the compiled theorems and everything they depend on; lists the axioms they rely on
+        t0 = time.time()
+        rc, out = _run(['coqchk', '-silent', '-o', '-R', '.', 'KV', f'KV.props.{chk.prop_id}'], cwd=COQ, timeout=3000)
+        m = re.search(r'\* Axioms:(.*?)\n\s*\n\* Constants', out, flags=re.S)
+        axioms = ' '.join(m.group(1).split()) if m else '?'
+        chk.notes['coqchk'] = {'exit': rc, 'axioms': axioms, 'wall_s': round(time.time() - t0, 1),
+                               'summary': [l.strip() for l in out.splitlines() if l.startswith('*')][:8]}
+        if rc != 0:
+            chk.obligation_broken('coqchk rejects props/%s.vo: %s' % (chk.prop_id, out[-300:]))
+        elif axioms not in ('<none>',):
+            chk.notes['axioms_reported_by_coqchk'] = axioms
     return b
